@@ -123,6 +123,7 @@ def _events(args):
         coll, model, R = b
         for flavour in ("PROKARYOTIC", "EUKARYOTIC"):
             buf = io.StringIO()
+            src = _project(coll, flavour)  # what must come back is fixed BEFORE the export runs
             try:
                 collection_to_genbank([coll], buf, genbank_type=GenbankFlavor[flavour], update_translations=True)
             except Exception as ex:
@@ -153,7 +154,6 @@ def _events(args):
                         prot = "M" + prot[1:]
                     translations.append([q["translation"][0], prot, strand, len(parts)])
             ev.append(["gbk", flavour, model, records, str(rec.seq) == R, translations, orders])
-            src = _project(coll, flavour)
             outs, orders_by_mode = [], []
             for mode in ("SORTED", "LOCUS_TAG", "HYBRID"):
                 try:
